@@ -119,7 +119,7 @@ def classify_alloc(case):
 
 # ------------------------------------------------------------------------------------ trajectories
 def strat_runs(tier):
-    return mlmc_case(tier, with_cv=False, modes=("adaptive",))
+    return mlmc_case(tier, with_cv=False, modes=("adaptive",), low_levels=True)
 
 
 def body_runs(case):
@@ -129,17 +129,18 @@ def body_runs(case):
     rec = run_scripted_mlmc(case)
     led = rec["ledger"]
     detail = f"case={case}"
-    if rec["status"] == "budget":
-        return [Violation("INCONCLUSIVE", rec["error"]), Violation("LABEL:budget-hit")]
     max_level = case["maximum_level"]
     sim_levels = [e[1] for e in led.events if e[0] == "sim"]
     nl_levels = [e[1] for e in led.events if e[0] == "next_level"]
+    # (decided from the ledger, also for a run stopped by the harness budget)
     if sim_levels and max(sim_levels) > max_level:
         out.append(Violation("C06/run/sample-simulated-above-the-maximum-level",
                              f"level {max(sim_levels)} > maximum {max_level}; {detail}"))
     if nl_levels and max(nl_levels) > max_level:
         out.append(Violation("C06/run/level-created-above-the-maximum-level",
                              f"next_level up to {max(nl_levels)} > maximum {max_level}; {detail}"))
+    if rec["status"] == "budget":
+        return out + [Violation("INCONCLUSIVE", rec["error"]), Violation("LABEL:budget-hit")]
     passes = rec["passes"]
     if not passes:
         out.append(Violation("C06/run/returned-without-results", detail))
@@ -195,7 +196,8 @@ def body_runs(case):
 
 
 def classify_runs(case):
-    return [f"rates={case['rates']}", f"L0={case['initial_level']}", f"Lmax-L0={case['maximum_level'] - case['initial_level']}"], False
+    return [f"rates={case['rates']}", f"L0={case['initial_level']}", f"Lmax-L0={case['maximum_level'] - case['initial_level']}",
+            f"criteria={case.get('criteria', 'giles')}"], False
 
 
 SUBCHECKS = [
